@@ -54,6 +54,7 @@ class Contract:
         self.known = []
         self.pure = False
         self.native = {}
+        self.stmt_hints = []       # (statement text, [lemma uses]) applied just before that statement
         self.abstract = False      # assumed contract of an abstract receiver (proved per subclass)
         self.label = None
 
@@ -160,6 +161,22 @@ class Registry:
             if d.startswith('unfold('):
                 return int(d[7:-1])
         return 2
+
+    def native_spec(self, name):
+        """the executable twin of a spec function (imported natively; pure python)"""
+        import importlib, sys
+        if sys.getrecursionlimit() < 30000:
+            sys.setrecursionlimit(30000)
+        if self.verif_root not in sys.path:
+            sys.path.insert(0, self.verif_root)
+        f = self.spec_functions.get(name)
+        if f is None:
+            return None
+        try:
+            m = importlib.import_module(f.module.name)
+            return getattr(m, name)
+        except Exception:
+            return None
 
     def primitive(self, name):
         return PRIMS.get(name)
@@ -325,6 +342,13 @@ class Registry:
                 elif n == 'native':
                     for k in call.keywords:
                         c.native[k.arg] = k.value
+                elif n == 'at_stmt':
+                    text = ast.literal_eval(call.args[0])
+                    uses = []
+                    for kw in call.keywords:
+                        if kw.arg == 'use':
+                            uses = kw.value.elts if isinstance(kw.value, (ast.List, ast.Tuple)) else [kw.value]
+                    c.stmt_hints.append((ast.unparse(ast.parse(text).body[0]), uses))
                 elif n == 'loop':
                     k = ast.literal_eval(call.args[0])
                     ls = c.loops.setdefault(k, LoopSpec())
@@ -548,6 +572,11 @@ def _implies(I, a, b):
     return VBool(z3.Implies(I.truth(a), I.truth(b)))
 
 
+def _typed_bytes(I, s):
+    return VBool(isinstance(s, VSeq) and s.is_bytes)
+
+
 PRIMS = {
     'implies': _implies,
+    'typed_bytes': _typed_bytes,
 }
